@@ -3,6 +3,8 @@
 (* C15: a rule's local variables belong to one execution of that rule.     *)
 (* Every rule is a straight-line program of operations                     *)
 (*   W x  (assign a fresh value to local x)      R x  (read local x)       *)
+(*   FR x (x is bound as the key variable of a forRange over injected      *)
+(*        data: a local defined without an assignment statement)           *)
 (*   H    (hold: block on a gate)                                          *)
 (*   CF x (a conc block with a slow assignment to local x and a failing    *)
 (*        call: x is assigned, then the block - and the rule - fails)      *)
@@ -41,7 +43,8 @@ EStartCore(e, r, q) ==
 EOpCore(e, i, val) ==
   /\ e \in DOMAIN ex /\ ~ex[e].ended /\ ~ex[e].failed /\ HasNext(e) /\ i = ex[e].pc + 1
   /\ LET op == NextOp(e) IN
-     CASE op.k = "W"  -> /\ ex' = [ex EXCEPT ![e].pc = i, ![e].store = (op.name :> val) @@ @]
+     CASE op.k \in {"W", "FR"}
+                      -> /\ ex' = [ex EXCEPT ![e].pc = i, ![e].store = (op.name :> val) @@ @]
                          /\ UNCHANGED inj
        [] op.k = "R"  -> /\ op.name \in DOMAIN ex[e].store
                          /\ val = ex[e].store[op.name]
@@ -102,8 +105,8 @@ LSpec == LInit /\ [][LNext]_lvars
 ReadsOwnWrites ==
   \A j \in DOMAIN lh : lh[j].k = "R" =>
      \E w \in 1..(j-1) :
-        /\ lh[w].k = "W" /\ lh[w].e = lh[j].e /\ lh[w].name = lh[j].name /\ lh[w].val = lh[j].val
-        /\ \A m \in (w+1)..(j-1) : ~(lh[m].k = "W" /\ lh[m].e = lh[j].e /\ lh[m].name = lh[j].name)
+        /\ lh[w].k \in {"W", "FR"} /\ lh[w].e = lh[j].e /\ lh[w].name = lh[j].name /\ lh[w].val = lh[j].val
+        /\ \A m \in (w+1)..(j-1) : ~(lh[m].k \in {"W", "FR"} /\ lh[m].e = lh[j].e /\ lh[m].name = lh[j].name)
 StartUndefined ==
   \A e \in DOMAIN ex : ex[e].pc = 0 => ex[e].store = <<>>
 SharedInjected ==
